@@ -88,14 +88,14 @@ J gen_hist(const std::string& prop, uint64_t run_seed, const std::string& tier) 
 }
 
 void exec_hist(const J& plan) {
-  sa_reset(knobs_alloc(plan));
+  if (!g_task_mode) sa_reset(knobs_alloc(plan));
   Hist H;
   const J& ops = plan.at("ops");
   for (size_t i = 0; i < ops.size() && !failed() && !g_run.foreign_seen; i++) H.run_op(hop_from_json(ops[i]));
   if (!failed() && !g_run.foreign_seen) H.final_checks();
   std::vector<uint64_t> order; for (size_t i = 0; i < plan.at("drop").size(); i++) order.push_back(plan.at("drop").iu(i));
   if (!failed() && !g_run.foreign_seen) H.drop_all(order);
-  if (!failed() && !g_run.foreign_seen) sa_check_integrity();
+  if (!failed() && !g_run.foreign_seen) if (!g_task_mode) sa_check_integrity();
   const std::string& p = g_run.prop;
   if (p == "C04") g_run.nontrivial = H.seen_shared && H.items_released >= 1;
   else if (p == "C03") g_run.nontrivial = H.serial_checked_nontrivial >= 1;
